@@ -315,7 +315,7 @@ Proof.
     destruct copy; [|discriminate]. destruct (get_struct w h) as [[old L]|] eqn:E1; auto.
     destruct (resolve_aref w a) as [x|] eqn:E2; auto.
     assert (srcs_valid w [copy_src true x]). { constructor; [|constructor]. simpl. eapply resolve_aref_valid; eauto. }
-    destruct (norm_index (length old) i); cbn [fst]; rewrite install_dupflag; auto.
+    destruct (norm_index (length old) i); cbn [fst]; auto. rewrite install_dupflag; auto.
     intros old0 L0 E. inversion E; subst. apply range_flag_nokeep; auto. eapply members_nodup; eauto.
   - (* DelInt *)
     destruct (get_struct w h) as [[old L]|]; auto. destruct (norm_index (length old) i); cbn [fst]; auto.
